@@ -101,6 +101,28 @@ def _run_shard(args):
         return r
 
 
+def _replay_many(args):
+    """runs mod.replay on a list of cases inside a worker process (so that drivers created while replaying
+    are never inherited by the shard processes)"""
+    modname, cases = args
+    mod = importlib.import_module(modname)
+    out = []
+    for c in cases:
+        try:
+            v = mod.replay(c)
+        except Exception:
+            v = {"signature": "replay-error", "detail": traceback.format_exc()[-2000:]}
+        out.append(v)
+    return out
+
+
+def replay_in_worker(modname, cases):
+    if not cases:
+        return []
+    with multiprocessing.get_context("fork").Pool(1) as pool:
+        return pool.map(_replay_many, [(modname, cases)])[0]
+
+
 def load_findings():
     p = os.path.join(VERIF, "known_findings.json")
     if not os.path.exists(p):
@@ -146,31 +168,24 @@ def main(modname, prop, argv):
     known_lines = []
     # 1. known findings: run each reproducer; still failing => KNOWN-FINDING line
     active = []
-    for f in findings:
-        try:
-            v = mod.replay(f["reproducer"])
-        except Exception:
-            v = {"signature": "replay-error", "detail": traceback.format_exc()}
+    for f, v in zip(findings, replay_in_worker(modname, [f["reproducer"] for f in findings])):
         if v:
             known_lines.append("KNOWN-FINDING: property=%s %s" % (prop, f["what"]))
             active.append(f)
     # 2. regression tier
     violations = []
     regdir = os.path.join(VERIF, "regressions", prop)
-    nreg = 0
+    reg = []
     if os.path.isdir(regdir):
         for name in sorted(os.listdir(regdir)):
-            if not name.endswith(".json"):
-                continue
-            nreg += 1
-            rc = json.load(open(os.path.join(regdir, name)))
-            case = rc.get("case", rc)
-            try:
-                v = mod.replay(case)
-            except Exception:
-                v = {"signature": "replay-error", "detail": traceback.format_exc(), "case": case}
-            if v and not _matches(v, active, mod):
-                v.setdefault("case", case)
+            if name.endswith(".json"):
+                rc = json.load(open(os.path.join(regdir, name)))
+                reg.append((name, rc.get("case", rc)))
+    nreg = len(reg)
+    for (name, case), v in zip(reg, replay_in_worker(modname, [c for _, c in reg])):
+        if v:
+            v.setdefault("case", case)
+            if not _matches(v, active, mod):
                 v["from_regression"] = name
                 violations.append(v)
     # 3. search
@@ -197,15 +212,7 @@ def main(modname, prop, argv):
         if _matches(v, active, mod):
             tot.excluded["violation_matching_known_finding"] += 1
             continue
-        ok = 0
-        last = None
-        for _ in range(3):
-            try:
-                last = mod.replay(v["case"])
-            except Exception:
-                last = None
-            if last:
-                ok += 1
+        ok = sum(1 for r in replay_in_worker(modname, [v["case"]] * 3) if r and r.get("signature") != "replay-error")
         if ok == 3:
             seen_sig.add(v["signature"])
             violations.append(v)
